@@ -8,3 +8,6 @@ cd /verif && bin/check $p $t; rc=$?
 cp /tmp/ev.$p.$$ /verif/evidence/$p.json 2>/dev/null; rm -f /tmp/ev.$p.$$
 git -C /repo checkout -- . ; git -C /repo clean -fdq pfcpiface
 echo "exit=$rc"
+# the run regenerated lean/Upf/Gen from the patched tree: regenerate it from the clean one (the Gen files are committed)
+[ -x /verif/work/bin/extract ] && (cd /repo && GOFLAGS=-mod=mod GOPROXY=off /verif/work/bin/extract -repo /repo -out /verif/lean/Upf/Gen >/dev/null 2>&1)
+exit $rc
